@@ -97,6 +97,29 @@ struct MappedClass {
         p.set("prop", g.prop);
         p.set("cfg", ce.name);
         bool boundary = g.profile == "boundary";
+        if (scale_slot(g) && sizeof(K) == 8) {
+            // scale slot: an output file well above 4 MiB (block-wise writers, very many write calls), every construction path
+            p.set("recipe", "walk " + std::to_string(cfg.range(530000, 1100000)) + " " + std::to_string(work.next() >> 1) + " " + std::to_string(cfg.range(4, 30)) + " 0 0");
+            p.set("recipe_start", cfg.range(0, 100000));
+            p.set("scale", 1);
+            draw_env(p, env, true, false);
+            p.set("motifs", "scale-walk+");
+            p.set("qseed", work.next() >> 1);
+            p.set("qmax", 3000);
+            p.set("io_faults", cfg.coin() ? "on" : "none");
+            auto flt = [&](const char *k) { return p.get("io_faults") == "on" ? " @" + std::to_string(fault.below(1200)) + ":" + k + ":" + std::to_string(fault.below(100000)) : std::string(); };
+            p.item('O', "create-range s0 F1" + flt("short_io") + flt("eintr"));
+            p.item('O', "query s0");
+            p.item('O', "write-raw");
+            p.item('O', "create-raw s1 F2" + flt("short_io"));
+            p.item('O', "compare-files");
+            p.item('O', "query s1");
+            p.item('O', "reopen s2 F1" + flt("short_io"));
+            p.item('O', "query s2");
+            p.item('O', "reopen s3 F2");
+            p.item('O', "query s3");
+            return p;
+        }
         bool large = false;
         size_t n = boundary ? (size_t) cfg.range(1, 4) : draw_n(cfg, E, g, large, 6);
         draw_env(p, env, large, g.tsan);
